@@ -26,7 +26,9 @@
 #include <algorithm>
 #include <cfloat>
 #include <signal.h>
+#include <fcntl.h>
 #include <sys/mman.h>
+#include <sys/resource.h>
 #include <sys/wait.h>
 #include <time.h>
 #include <unistd.h>
@@ -55,8 +57,8 @@ struct Shared {
   volatile double w[16];
 };
 static Shared *g_sh = nullptr;
-enum Phase { PH_CONSTRUCT = 0, PH_STRUCT, PH_NEIGHBOURS, PH_ENUM, PH_LOCATE, PH_RAY, PH_QUERY, PH_REFINE, PH_OTHER };
-static const char *g_phase_names[] = {"construct", "structure", "neighbours", "enumerate", "locate", "ray", "query", "refine", "other"};
+enum Phase { PH_CONSTRUCT = 0, PH_STRUCT, PH_NEIGHBOURS, PH_ENUM, PH_LOCATE, PH_RAY, PH_QUERY, PH_REFINE, PH_OTHER, PH_OCTREE_BUILD, PH_PL_BUILD, PH_OCTREE_QUERY, PH_PL_QUERY };
+static const char *g_phase_names[] = {"construct", "structure", "neighbours", "enumerate", "locate", "ray", "query", "refine", "other", "octree-construct", "pointlocations-construct", "octree-query", "pointlocations-query"};
 
 static const char *g_regimes[] = {"interior", "cell-face", "lower-wall", "upper-wall-ulp", "open", "periodic"};
 static inline void set_phase(int ph) { g_sh->phase = ph; g_sh->nw = 0; g_sh->regime = -1; }
@@ -107,7 +109,19 @@ static bool wait_child(pid_t pid, double budget_s, int &status) {
     if (nap < 5000) nap *= 2;
   }
 }
+static bool g_keep_stderr = false;
 static void child_begin(uint64_t print_limit) {
+  // backstops: bounded memory, and the library's diagnostics do not flood the parent
+  struct rlimit rl;
+  rl.rlim_cur = rl.rlim_max = (rlim_t)6 << 30;
+  setrlimit(RLIMIT_AS, &rl);
+  if (!g_keep_stderr) {
+    const int fd = open("/dev/null", O_WRONLY);
+    if (fd >= 0) {
+      dup2(fd, 2);
+      close(fd);
+    }
+  }
   vh::g_nviol = 0;
   vh::g_viol_print_limit = print_limit;
   g_st = vh::Stats();
@@ -162,7 +176,7 @@ static void run_batch(const std::string &fam, int phase, uint64_t caseid, int64_
       child_end();
     }
     int status = 0;
-    const bool to = wait_child(pid, (1. + 0.004 * (double)(nops - start)) * g_tscale, status);
+    const bool to = wait_child(pid, std::fmax(timeout_s, 1. + 0.004 * (double)(nops - start)) * g_tscale, status);
     if (!to && WIFEXITED(status) && WEXITSTATUS(status) == 0) break;
     const int64_t at = g_sh->cur;
     const int aph = g_sh->phase;
@@ -711,7 +725,7 @@ static void check_volume(const std::string &fam, uint64_t caseid, DensityGrid &g
 static void locate_battery(const std::string &fam, uint64_t caseid, DensityGrid &grid, const Domain &D, const BoxCells &C, vh::Rng rbase,
                            int64_t nloc) {
   for (int pass = 0; pass < 2; ++pass)
-  run_batch(fam, PH_LOCATE, caseid, nloc, 120., [&](int64_t i) {
+  run_batch(fam, PH_LOCATE, caseid, nloc, 0., [&](int64_t i) {
     vh::Rng r = rbase.fork(i);
     const int kr = r.below(100);
     const int kind = kr < 55 ? 0 : (kr < 85 ? 1 : (kr < 93 ? 2 : 3));
@@ -813,7 +827,7 @@ static void ray_battery(const std::string &fam, uint64_t caseid, DensityGrid &gr
   const bool anyper = D.per[0] || D.per[1] || D.per[2];
   double kmax = 0.;
   for (double kv : O.kappa) kmax = std::fmax(kmax, kv);
-  run_batch(fam, PH_RAY, caseid, nrays, 120., [&](int64_t i) {
+  run_batch(fam, PH_RAY, caseid, nrays, 0., [&](int64_t i) {
     vh::Rng r = rbase.fork(i);
     RayPlan P = plan_box_ray(r, D, C);
     RayOracle R;
@@ -1270,7 +1284,7 @@ static void amrgrid_case(uint64_t caseid, vh::Rng r, int64_t nloc) {
   }
   // location: get_key(position), get_cell(position), get_key(level, position)
   for (int pass = 0; pass < 2; ++pass)
-  run_batch(fam, PH_LOCATE, caseid, nloc, 120., [&](int64_t i) {
+  run_batch(fam, PH_LOCATE, caseid, nloc, 0., [&](int64_t i) {
     vh::Rng rr = r.fork(1000 + i);
     const int kr = rr.below(100);
     const int kind = kr < 50 ? 0 : (kr < 85 ? 1 : (kr < 93 ? 2 : 3));
@@ -1705,7 +1719,7 @@ static void voronoi_case(uint64_t caseid, vh::Rng r, int64_t nloc, int64_t nrays
   // location: nearest generator; the cell's faces contain the position
   const double dtol = 16. * EPS * D.P;
   for (int pass = 0; pass < 1; ++pass)
-    run_batch(fam, PH_LOCATE, caseid, nloc, 120., [&](int64_t i) {
+    run_batch(fam, PH_LOCATE, caseid, nloc, 0., [&](int64_t i) {
       vh::Rng rr = r.fork(1000 + i);
       const int kr = rr.below(100);
       CV p;
@@ -1779,7 +1793,7 @@ static void voronoi_case(uint64_t caseid, vh::Rng r, int64_t nloc, int64_t nrays
   const double nudge_eps = 1e-12 * CV(D.side[0], D.side[1], D.side[2]).norm();
   double mincell = DBL_MAX;
   for (size_t c = 0; c < n; ++c) mincell = std::fmin(mincell, std::cbrt(grid.get_cell_volume(c)));
-  run_batch(fam, PH_RAY, caseid, nrays, 120., [&](int64_t i) {
+  run_batch(fam, PH_RAY, caseid, nrays, 0., [&](int64_t i) {
     vh::Rng rr = r.fork(500000 + i);
     const int sk = rr.below(100);
     CV o, d = random_direction(rr);
@@ -1866,12 +1880,15 @@ static void make_points(vh::Rng &r, const Domain &D, int kind, size_t n, std::ve
   } else { // points on the lower walls / planes plus uniform
     for (size_t i = 0; i < n; ++i) {
       CV p(D.lo[0] + D.side[0] * r.uniform(), D.lo[1] + D.side[1] * r.uniform(), D.lo[2] + D.side[2] * r.uniform());
-      if (r.chance(0.3)) p[r.below(3)] = D.lo[r.below(3) % 3];
-      if (!D.inside(p)) p = CV(D.lo[0] + 0.5 * D.side[0], D.lo[1] + 0.25 * D.side[1], D.lo[2] + D.side[2] * r.uniform());
+      if (r.chance(0.3)) {
+        const int a = r.below(3);
+        p[a] = D.lo[a];
+      }
       if (r.chance(0.2)) {
         const int a = r.below(3);
         p[a] = D.lo[a] + D.side[a] * 0.5; // on the mid plane
       }
+      if (!D.inside(p)) p = CV(D.lo[0] + D.side[0] * r.uniform(), D.lo[1] + D.side[1] * r.uniform(), D.lo[2] + D.side[2] * r.uniform());
       pts.push_back(p);
     }
   }
@@ -1893,6 +1910,15 @@ static void search_case(uint64_t caseid, vh::Rng r, int64_t nq) {
   const size_t n = 2 + r.below(r.chance(0.3) ? 30 : 1500);
   std::vector< CV > pts;
   make_points(r, D, pk, n, pts);
+  {
+    std::vector< CV > uniq;
+    std::sort(pts.begin(), pts.end(), [](const CV &a, const CV &b) { return a.x() < b.x() || (a.x() == b.x() && (a.y() < b.y() || (a.y() == b.y() && a.z() < b.z()))); });
+    for (const CV &p : pts)
+      if (uniq.empty() || absmax3(uniq.back() - p) != 0.) uniq.push_back(p);
+    for (size_t i = uniq.size(); i > 1; --i) std::swap(uniq[i - 1], uniq[r.below(i)]);
+    pts.swap(uniq);
+    if (pts.size() < 2) pts.push_back(CV(D.lo[0] + 0.3 * D.side[0], D.lo[1] + 0.6 * D.side[1], D.lo[2] + 0.1 * D.side[2]));
+  }
   const size_t np = pts.size();
   static const char *pkn[] = {"uniform", "clustered", "dyadic-lattice", "walls-and-midplanes"};
   const bool periodic = r.chance(0.4);
@@ -1919,8 +1945,8 @@ static void search_case(uint64_t caseid, vh::Rng r, int64_t nq) {
     return c;
   };
   // ---- Octree
-  {
-    set_phase(PH_CONSTRUCT);
+  run_batch(fam, PH_OCTREE_BUILD, caseid, 1, 100., [&](int64_t) {
+    set_phase(PH_OCTREE_BUILD);
     set_w({(double)np, (double)pk, (double)periodic});
     std::vector< CV > tp(pts); // the tree may move exact duplicates; we have none
     Octree tree(tp, D.box(), periodic);
@@ -1931,7 +1957,7 @@ static void search_case(uint64_t caseid, vh::Rng r, int64_t nq) {
     tree.set_auxiliaries(h, Octree::max< double >);
     for (size_t i = 0; i < np; ++i)
       if (absmax3(tp[i] - pts[i]) != 0.) VH_VIOL("search/octree/moved-a-point", caseid, "point %zu was moved by the tree", i);
-    run_batch(fam, PH_QUERY, caseid, nq, 120., [&](int64_t i) {
+    run_batch(fam, PH_OCTREE_QUERY, caseid, nq, 0., [&](int64_t i) {
       vh::Rng rr = r.fork(7000 + i);
       const CV c = query_point(rr);
       set_w({c.x(), c.y(), c.z(), 1.});
@@ -1993,11 +2019,19 @@ static void search_case(uint64_t caseid, vh::Rng r, int64_t nq) {
         g_st.inc("search_octree_list");
       }
     });
-  }
+  });
   // ---- PointLocations
-  {
-    set_phase(PH_CONSTRUCT);
-    const bool with_box = r.chance(0.6);
+  run_batch(fam, PH_PL_BUILD, caseid, 1, 100., [&](int64_t) {
+    set_phase(PH_PL_BUILD);
+    bool with_box = r.chance(0.6);
+    { // the automatic bounding box (only used by unit tests; every caller in the code passes a box) needs a non-degenerate range
+      CV a = pts[0], b = pts[0];
+      for (const CV &p : pts) {
+        a = CV::min(a, p);
+        b = CV::max(b, p);
+      }
+      if (!(b.x() > a.x() && b.y() > a.y() && b.z() > a.z())) with_box = true;
+    }
     const uint_fast32_t per_cell = 1 + r.below(r.chance(0.5) ? 10 : 100);
     set_w({(double)np, (double)per_cell, (double)with_box});
     PointLocations *plp = with_box ? new PointLocations(pts, per_cell, D.box()) : new PointLocations(pts, per_cell);
@@ -2012,7 +2046,7 @@ static void search_case(uint64_t caseid, vh::Rng r, int64_t nq) {
         qhi = CV::max(qhi, p);
       }
     }
-    run_batch(fam, PH_QUERY, caseid, nq, 120., [&](int64_t i) {
+    run_batch(fam, PH_PL_QUERY, caseid, nq, 0., [&](int64_t i) {
       vh::Rng rr = r.fork(9000 + i);
       CV c = query_point(rr);
       if (!with_box)
@@ -2075,7 +2109,7 @@ static void search_case(uint64_t caseid, vh::Rng r, int64_t nq) {
         g_st.inc("search_pointlocations_iterator_steps", steps);
       }
     });
-  }
+  });
   // ---- MortonKeyGenerator: decode the key (de-interleave) and compare with the position; order is monotone
   {
     set_phase(PH_OTHER);
@@ -2126,6 +2160,7 @@ int main(int argc, char **argv) {
   const uint64_t ncases = vh::arg_u64(argc, argv, "--cases", 4);
   const int64_t only = (int64_t)vh::arg_u64(argc, argv, "--only", (uint64_t)-1);
   g_nofork = vh::arg_flag(argc, argv, "--nofork");
+  g_keep_stderr = vh::arg_flag(argc, argv, "--stderr");
   g_tscale = vh::arg_f(argc, argv, "--tscale", 1.);
   g_debug_ray = (int64_t)vh::arg_u64(argc, argv, "--debugray", (uint64_t)-1);
 #ifdef _OPENMP
